@@ -222,7 +222,11 @@ def contracts():
     lexer = obj('yaql.language.lexer.Lexer',
                 _operators_table={'and': (0, 1, 'OP_A', None),
                                   'not': (5, 0, 'OP_B', None),
-                                  '+': (3, 7, 'OP_C', None)},
+                                  '+': (3, 7, 'OP_C', None),
+                                  # identifier-shaped words that are not
+                                  # purely alphabetic / not ASCII
+                                  'is_set2': (7, 1, 'OP_E', None),
+                                  'und\u00e9': (8, 1, 'OP_F', None)},
                 tokens=None)
     c(L + 'Lexer.t_KEYWORD_STRING', params=dict(self=lexer, t=token()),
       ensures=[
@@ -231,14 +235,19 @@ def contracts():
           # constants their values, anything else denotes its own text
           'implies(VALUE == "and", t.type == "OP_A" and t.value == VALUE)',
           'implies(VALUE == "not", t.type == "OP_B" and t.value == VALUE)',
+          'implies(VALUE == "is_set2", t.type == "OP_E" and '
+          't.value == VALUE)',
+          'implies(VALUE == "und\u00e9", t.type == "OP_F" and '
+          't.value == VALUE)',
           'implies(VALUE == "true", t.type == "TRUE" and t.value is True)',
           'implies(VALUE == "false", t.type == "FALSE" and t.value is '
           'False)',
           'implies(VALUE == "null", t.type == "NULL" and t.value is None)',
           'implies(VALUE != "and" and VALUE != "not" and VALUE != "+" and '
+          'VALUE != "is_set2" and VALUE != "und\u00e9" and '
           'VALUE != "true" and VALUE != "false" and VALUE != "null", '
           't.type == "KEYWORD_STRING" and t.value == VALUE)'],
-      serves=('C03', 'C16'))
+      serves=('C03', 'C16', 'C02'))
     # ---- grammar error: always a YaqlGrammarException -----------------------
     c(P + 'Parser.p_error', name='parser.Parser.p_error/token',
       params=dict(p=token()),
